@@ -26,8 +26,13 @@ Record ev := mkEv { e_trig : bool; e_ws : N; e_mail : bool }.
    c_batch     plogReadBatchSize
    c_qcap      capacity of the pipeline's input channel (the reader blocks when it is full)
    c_nulllast  the view storage writes the NullWSID batch (position) after the workspace batches
-   c_viewlast  FlushBundles applies the view storage after the other storages (false: map order) *)
-Record cfg := mkCfg { c_limit : N; c_nonbuf : bool; c_posticks : N; c_batch : N; c_qcap : N; c_nulllast : bool; c_viewlast : bool }.
+   c_viewlast  FlushBundles applies the view storage after the other storages (false: map order)
+   c_descmust  isProjectorDefined demands the workspace descriptor (MustExist): an event whose
+               descriptor is not readable yet is an error (false: CanExist, the event is passed over)
+   c_earlyrel  DoAsync releases the event although its intents stay in the bundle: what a later flush
+               stores for it may be read from a buffer that was handed out again (finding C09-F2) *)
+Record cfg := mkCfg { c_limit : N; c_nonbuf : bool; c_posticks : N; c_batch : N; c_qcap : N; c_nulllast : bool; c_viewlast : bool;
+                      c_descmust : bool; c_earlyrel : bool }.
 
 Definition len {T} (l : list T) : N := N.of_nat (length l).
 Definition lookup (l : list ev) (o : N) : option ev := if o =? 0 then None else nth_error l (N.to_nat (o - 1)).
@@ -47,7 +52,8 @@ Inductive rph := ROff | RInit | RToEnd | RWatch | RLoop (ro : N) | RSend | RClos
 Record rdr := mkR { r : rph; rd : N; batch : list N; dlv : N; stopped : bool }.
 
 Inductive why := FDo | FTimer | FClose.
-Inductive ppc := PIdle | PIn (o : N) | PWant (w : why) | PFl (w : why).
+(* PLook o: event o taken, its workspace descriptor being looked up; PIn o: inside the projector function *)
+Inductive ppc := PIdle | PLook (o : N) | PIn (o : N) | PWant (w : why) | PFl (w : why).
 (* alive: the operator goroutine exists; actv: no DoAsync/Flush error so far (wo.err == nil);
    q: workpieces sent and not yet taken; cur: pLogOffset (0 = NullOffset); acc: acceptedSinceSave;
    since: Ticks since lastSave; bv/bm: offsets whose view row / mail sits in the bundles;
@@ -73,12 +79,13 @@ Definition wrote (v : verdict) : bool := match v with VBefore => false | _ => tr
 Inductive act :=
 (* the harness / environment *)
 | Append (e : ev) | Notify (n : N) | Start | Stop | Tick
-| Check (p : N) (effs ms : list N)
+| Check (p : N) (effs ms bad : list N)   (* bad: stored rows whose content is not their event's *)
 (* reader, at its parking points *)
 | RInitOk (p : N) | RInitErr
 | RReadEnd (got : list N) | RReadEndErr
 | RReadOne (o : N) (found : bool) | RReadOneErr (o : N)
 (* operator, at its parking points *)
+| PLookup (o : N) (present : bool)
 | PInvoke (o : N) (ok : bool)
 | PFlushStart
 | PPutWS (ws : N) (offs : list N) (v : verdict)
@@ -95,7 +102,7 @@ Definition arm (j : prj) : prj :=
 Definition j_q (j : prj) (q' : list N) : prj :=
   mkJ (alive j) (actv j) q' (pc j) (cur j) (acc j) (since j) (bv j) (bm j) (armed j) (tickp j) (fv j) (fpos j) (fm j) (fsto j).
 Definition j_take (j : prj) (o : N) (q' : list N) : prj :=
-  mkJ (alive j) (actv j) q' (PIn o) o (acc j) (since j) (bv j) (bm j) (armed j) (tickp j) (fv j) (fpos j) (fm j) (fsto j).
+  mkJ (alive j) (actv j) q' (PLook o) o (acc j) (since j) (bv j) (bm j) (armed j) (tickp j) (fv j) (fpos j) (fm j) (fsto j).
 Definition j_skip (j : prj) (o : N) (q' : list N) : prj :=
   arm (mkJ (alive j) (actv j) q' PIdle o (acc j) (since j) (bv j) (bm j) (armed j) (tickp j) (fv j) (fpos j) (fm j) (fsto j)).
 Definition j_pc (j : prj) (p : ppc) : prj :=
@@ -165,8 +172,9 @@ Definition step (c : cfg) (s : st) (a : act) : option st :=
   | Tick =>
       let wake := match r R with RRetry => true | _ => false end in
       Some (mkSt P (if wake then r_ph R RInit else R) (j_tick J wake) G)
-  | Check p effs ms =>
-      if (p =? pos P) && ms_eqb effs (eff P) && list_eqb N.eqb ms (mails P) then Some s else None
+  | Check p effs ms bad =>
+      if (p =? pos P) && ms_eqb effs (eff P) && list_eqb N.eqb ms (mails P) && (c_earlyrel c || is_nil bad)
+      then Some s else None
   | RInitOk p =>
       match r R with
       | RInit => if negb (stopped R) && (p =? pos P)
@@ -250,6 +258,17 @@ Definition step (c : cfg) (s : st) (a : act) : option st :=
       match pc J, q J with
       | PIdle, o :: q' => if alive J && (negb (actv J) || stopped R) then Some (mkSt P R (j_q J q') G) else None
       | _, _ => None
+      end
+  | PLookup o present =>
+      match pc J with
+      | PLook o' =>
+          if o =? o' then
+            if present then Some (mkSt P R (j_pc J (PIn o)) G)
+            else if c_descmust c
+                 then Some (mkSt P R (j_invfail J) (mkG (g_init G) (o - 1) (g_inv G)))   (* error; o was not invoked *)
+                 else Some (mkSt P R (arm (j_pc J PIdle)) G)                              (* passed over *)
+          else None
+      | _ => None
       end
   | PInvoke o ok =>
       match pc J with
@@ -405,7 +424,8 @@ Fixpoint elaborate (c : cfg) (s : st) (l : list act) : option (list act * st) :=
 Record trace := mkTrace { t_limit : N; t_nonbuf : bool; t_posticks : N; t_quiet : bool; t_acts : list act }.
 
 Definition cfg_of (t : trace) : cfg :=
-  mkCfg (t_limit t) (t_nonbuf t) (t_posticks t) c09_plog_read_batch_size c09_pipeline_stdin_cap c09_null_wsid_last c09_flush_view_last.
+  mkCfg (t_limit t) (t_nonbuf t) (t_posticks t) c09_plog_read_batch_size c09_pipeline_stdin_cap c09_null_wsid_last c09_flush_view_last
+        c09_descriptor_must_exist c09_event_released_before_flush.
 
 (* every observed action is enabled in the model with the observed values, and when the harness
    found the real actualizer quiescent at the end, the model's state is quiescent too *)
@@ -453,8 +473,9 @@ Fixpoint oracle (nonbuf : bool) (g : og) (l : list act) : bool :=
       | PPutPos p v =>
           (* the persisted position is never ahead of the persisted effects *)
           (negb (o_dom g) || negb (wrote v) || covered nonbuf (o_lg g) p (o_eff g) (o_mails g)) && oracle nonbuf g t
-      | Check p effs ms =>
-          (negb (o_dom g) || covered nonbuf (o_lg g) p effs ms) && oracle nonbuf g t
+      | Check p effs ms bad =>
+          (* what is stored for an event is that event's own effect *)
+          is_nil bad && (negb (o_dom g) || covered nonbuf (o_lg g) p effs ms) && oracle nonbuf g t
       | _ => oracle nonbuf g t
       end
   end.
@@ -467,7 +488,7 @@ Definition final_log (l : list act) : list ev :=
 Definition final_ok (t : trace) : bool :=
   negb (t_quiet t) ||
   match rev (t_acts t) with
-  | Check p effs ms :: _ => covered (t_nonbuf t) (final_log (t_acts t)) (len (final_log (t_acts t))) effs ms
+  | Check p effs ms _ :: _ => covered (t_nonbuf t) (final_log (t_acts t)) (len (final_log (t_acts t))) effs ms
   | _ => false
   end.
 
